@@ -27,7 +27,8 @@ META = {
                   "/verif/spec/memory_map.py (which locations a conforming unit accepts writes to), z3/cvc5, "
                   "symx semantics (each path re-run concretely). One fault per path.",
     "explanation": "symbolic execution of write_raw / write driven against the memory model",
-    "bounds": ["every declared value; writable ones with all bytes symbolic; strings also as short writes of "
+    "bounds": ["every optional boolean parameter of write_raw beyond the known three is a symbolic input (none at the pinned commit)",
+               "every declared value; writable ones with all bytes symbolic; strings also as short writes of "
                "every length (quick: a few lengths)", "one fault of each kind at a symbolic write step",
                "lock byte initially 0x55 / 0xFF / symbolic", "force_unlock and ignore_feedback both ways",
                "six synthetic values (declared by the harness through the library's metaclass in a lockable "
